@@ -2,6 +2,7 @@ package main
 
 import (
 	"fmt"
+	"go/token"
 	"go/types"
 	"math"
 	"strings"
@@ -57,6 +58,24 @@ type Term struct {
 	Bnd  bool // Lo/Hi valid (mathematical value of the Go integer the term stands for)
 	Int  bool // for Real-sorted terms: value is known to be an integer (exact)
 	IntT *Term
+	// for Real-sorted terms: sound bounds
+	RLo, RHi float64
+	RBnd     bool
+	// for Bool-sorted terms of the form "X op C": lets an assertion refine X's interval
+	CmpX  *Term
+	CmpOp token.Token
+	CmpC  int64
+	CmpSg bool
+	// INT mode: the term equals Base + Off (Base is not itself of that form)
+	Base *Term
+	Off  int64
+	// the term is decimal digit DigK (0 = least significant) of the DigN-digit non-negative number DigOf
+	DigOf *Term
+	DigK  int
+	DigN  int
+	// the term equals X mod RadC for the dividend X of the mixed-radix decomposition Rad
+	Rad                    *radix
+	RadHi, RadLo, RadUnit int64
 }
 
 type Int struct {
